@@ -86,6 +86,10 @@ type Driver struct {
 	// operation reports the error the model is re-synchronised from the tree
 	// (what a failed operation must leave behind is C12's subject, not ours)
 	WFault int
+	// WDiff / WCursor > 0 add diffs against earlier kept versions and short cursor walks,
+	// each compared with the model (used by C11 so that diff and cursor code also runs
+	// concurrently over shared nodes)
+	WDiff, WCursor int
 	// AfterFailedShrink: a Delete that had to lower the height reported an injected
 	// fault (recorded finding D14: the delete is applied, the shrink is not) - from
 	// then on the tree may be taller than canonical
@@ -262,7 +266,7 @@ func (d *Driver) Step() {
 		{wDel, d.OpDeletePresent}, {3, d.OpDeleteAbsent}, {3, d.OpDeleteWrong},
 		{6, d.OpGetPresent}, {5, d.OpGetAbsent}, {2, d.OpIter},
 		{d.WClone, d.OpCloneSwitch}, {d.WPersist, d.OpPersist}, {d.WReload, d.OpReload}, {d.WReopen, d.OpReopenOld},
-		{d.WFault, d.OpFaulted}, {2, d.OpForkAndDiscard},
+		{d.WFault, d.OpFaulted}, {2, d.OpForkAndDiscard}, {d.WDiff, d.OpDiffOld}, {d.WCursor, d.OpCursorWalk},
 	}
 	tot := 0
 	for _, o := range ops {
@@ -587,6 +591,75 @@ func (d *Driver) OpForkAndDiscard() {
 	d.C.Obs("op_fork_and_discard", 1)
 	if d.ID == "C09" { // whatever the live tree is now, the version it persists must be well-formed
 		d.Persist()
+	}
+}
+
+// OpDiffOld diffs the live tree against an earlier kept version re-opened from its
+// root and compares the reported differences with the merge of the two models.
+func (d *Driver) OpDiffOld() {
+	if len(d.oldRoots) == 0 {
+		return
+	}
+	i := d.R.Intn(len(d.oldRoots))
+	ot, err := d.E.Load(d.oldRoots[i])
+	if err != nil {
+		d.fail("diff", nil, "LoadMast of an earlier persisted root failed: %v", err)
+		return
+	}
+	want := expectedDiff(d.oldModels[i], d.M)
+	var got []gotDiff
+	err = d.T.DiffIter(d.E.Ctx, ot, func(added, removed bool, key, av, rv interface{}) (bool, error) {
+		got = append(got, gotDiff{Key: key, Type: typeName(added, removed), Old: rv, New: av})
+		return true, nil
+	})
+	d.C.Obs("op_diff_against_old_version", 1)
+	if err != nil {
+		d.fail("diff", nil, "DiffIter against an earlier version failed on a healthy store: %v", err)
+		return
+	}
+	if msg := compareDiffs(d.E.KK, want, got); msg != "" {
+		d.fail("diff", nil, "DiffIter against an earlier version: %s", msg)
+	}
+}
+
+// OpCursorWalk opens a cursor at the least key >= a probe and steps a few times,
+// comparing each position with the model's sorted key list.
+func (d *Driver) OpCursorWalk() {
+	cur, err := d.T.Cursor(d.E.Ctx)
+	if err != nil {
+		d.fail("cursor", nil, "Cursor failed on a healthy store: %v", err)
+		return
+	}
+	probe := d.Pool[d.R.Intn(len(d.Pool))]
+	if err := cur.Ceil(d.E.Ctx, probe); err != nil {
+		d.fail("cursor", nil, "Ceil(%v) failed on a healthy store: %v", probe, err)
+		return
+	}
+	idx, _ := d.M.Find(probe)
+	d.C.Obs("op_cursor_walk", 1)
+	for step := 0; step < 6; step++ {
+		k, _, ok := cur.Get()
+		if idx < 0 || idx >= d.M.Len() {
+			if ok {
+				d.fail("cursor", nil, "cursor off the end still has entry %v", k)
+			}
+			return
+		}
+		if !ok || d.E.KK.Cmp(k, d.M.Keys[idx]) != 0 {
+			d.fail("cursor", nil, "cursor after Ceil(%v) and %d steps is at %v (ok=%v), the sorted list has %v", probe, step, k, ok, d.M.Keys[idx])
+			return
+		}
+		if d.R.Bool() {
+			err = cur.Forward(d.E.Ctx)
+			idx++
+		} else {
+			err = cur.Backward(d.E.Ctx)
+			idx--
+		}
+		if err != nil {
+			d.fail("cursor", nil, "cursor step failed on a healthy store: %v", err)
+			return
+		}
 	}
 }
 
